@@ -2,6 +2,7 @@
 # Build the Lean model/driver/proofs and the Rust harness from files on disk only.
 set -e
 cd "$(dirname "$0")"
+python3 srcgen/srcgen.py --repo /repo || true
 (cd lean && lake build)
 if [ -d harness ]; then
   cp /repo/Cargo.lock harness/Cargo.lock 2>/dev/null || true
